@@ -323,6 +323,20 @@ func apiCase(r *rng.R, dir string) string {
 	if model == 1 {
 		cfg.Model = "65C02"
 	}
+	{
+		w1, w2 := []string{}, []string{}
+		for _, x := range p1 {
+			w1 = append(w1, x.wire())
+		}
+		for _, x := range p2 {
+			w2 = append(w2, x.wire())
+		}
+		trp := 0
+		if trap {
+			trp = 1
+		}
+		pend("luaapi %d %s %x %d %d | %s | %s", model, spec, loadAt, iters, trp, strings.Join(w1, " "), strings.Join(w2, " "))
+	}
 	var err error
 	var c *cpu.CPU6502
 	crashed := protect(func() {
